@@ -74,14 +74,19 @@ func init() {
 	for _, v := range []uint64{0, 0x7F, 0x80, 0xFF} {
 		add(c03Op{name: fmt.Sprintf("SetSpliceCountdown(%#x)", v), kind: c03SetSplice, v: v})
 	}
-	for n, nm := range []string{"0", "1", "2", "exact-fit", "fit+1"} {
+	for n, nm := range []string{"0", "1", "2", "exact-fit", "fit+1", "256", "300"} {
 		add(c03Op{name: "SetTransportPrivateData(len " + nm + ")", kind: c03SetPriv, n: n})
 	}
-	for n, nm := range []string{"0", "1", "2", "exact-fit", "fit+1"} {
+	for n, nm := range []string{"0", "1", "2", "exact-fit", "fit+1", "256", "300"} {
 		add(c03Op{name: "SetAdaptationFieldExtension(len " + nm + ")", kind: c03SetExt, n: n})
 	}
 	for n, nm := range []string{"empty", "all-fields", "pcr-only", "private-only", "extension+flags", "private-181"} {
 		add(c03Op{name: "SetAdaptationField(" + nm + ")", kind: c03Copy, n: n})
+	}
+	// the same logical fields carried by a source packet whose adaptation_field_length is exactly the
+	// content length (no stuffing in the source, payload right behind it)
+	for n, nm := range []string{"empty", "all-fields", "pcr-only", "private-only", "extension+flags"} {
+		add(c03Op{name: "SetAdaptationField(" + nm + ", tight source)", kind: c03Copy, n: 100 + n})
 	}
 }
 
@@ -107,6 +112,17 @@ func c03Source(n int) *ref.AF {
 }
 
 func c03SourcePacket(n int) *packet.AdaptationField {
+	if n >= 100 {
+		src := c03Source(n - 100)
+		l := src.ContentLen()
+		pay := make([]byte, 183-l)
+		for i := range pay {
+			pay[i] = byte(0x11 * (1 + i%14))
+		}
+		raw := ref.BuildPacket(ref.Header{Sync: 0x47, PID: 0x34, AFC: 3, CC: 2}, src, l, pay)
+		p := packet.Packet(raw)
+		return (*packet.AdaptationField)(&p)
+	}
 	raw := ref.BuildPacket(ref.Header{Sync: 0x47, PID: 0x33, AFC: 2, CC: 1}, c03Source(n), 183, nil)
 	p := packet.Packet(raw)
 	return (*packet.AdaptationField)(&p)
@@ -237,10 +253,10 @@ func c03Apply(s *c03State, opi int, res *engine.Result) bool {
 		if *field == nil {
 			class = "absent"
 			wantErr = true
-			return c03Data(tag, []int{0, 1, 2, 3, 4}[op.n])
+			return c03Data(tag, []int{0, 1, 2, 3, 4, 256, 300}[op.n])
 		}
 		fit := len(*field) + room
-		n := []int{0, 1, 2, fit, fit + 1}[op.n]
+		n := []int{0, 1, 2, fit, fit + 1, 256, 300}[op.n]
 		data := c03Data(tag, n)
 		switch {
 		case n > fit:
@@ -319,7 +335,7 @@ func c03Apply(s *c03State, opi int, res *engine.Result) bool {
 			data := setVar(&m2.Ext, 0xE0)
 			callErr = af.SetAdaptationFieldExtension(data)
 		case c03Copy:
-			src := c03Source(op.n)
+			src := c03Source(op.n % 100)
 			srcPkt := c03SourcePacket(op.n)
 			keep := *srcPkt
 			if src.ContentLen() > s.afLen {
@@ -560,7 +576,7 @@ func init() {
 		ID: "C03", Title: "Adaptation field stays a faithful ISO 13818-1 encoding under any edit history", Level: "model_checking",
 		Scenarios: []engine.ScenarioRunner{
 			c03BFS("all-lengths-shallow",
-				"BFS from the empty and 4 pre-populated adaptation fields of EVERY adaptation_field_length 1..183 (payload 183-len bytes, AF-only at 183), alphabet of 42 setter calls (3 indicators x2, 5 presence toggles x2, 3 PCR + 3 OPCR values, 4 splice values, private data / extension with lengths {0,1,2,exact fit,fit+1}, whole-field copy from 6 source packets); after every call bytes == reference serialisation and all getters of both APIs == model; states deduplicated on the 188 packet bytes; depth 2 (quick) / 3 (thorough)",
+				"BFS from the empty and 4 pre-populated adaptation fields of EVERY adaptation_field_length 1..183 (payload 183-len bytes, AF-only at 183), alphabet of 51 setter calls (3 indicators x2, 5 presence toggles x2, 3 PCR + 3 OPCR values, 4 splice values, private data / extension with lengths {0,1,2,exact fit,fit+1,256,300}, whole-field copy from 6 source packets with a 183-byte field and 5 whose field is exactly as long as its content); after every call bytes == reference serialisation and all getters of both APIs == model; states deduplicated on the 188 packet bytes; depth 2 (quick) / 3 (thorough)",
 				func(r *engine.Run) []int { return c03Inits(seq(1, 183), []int{0, 1, 2, 3, 4}) },
 				func(r *engine.Run) int {
 					if r.Thorough() {
